@@ -7,7 +7,7 @@ def eps_of(dtype):
 
 
 def check_affiliation(R, monitor, g, shape=None, eps=0.0, mask=None, key='affiliation', prop='C01',
-                      normalised=True, where=''):
+                      normalised=True, where='', active=None):
     """Validity of a class-affiliation array (C01 clause 1). Returns True if all conditions hold."""
     ok = True
     g = np.asarray(g)
@@ -25,8 +25,17 @@ def check_affiliation(R, monitor, g, shape=None, eps=0.0, mask=None, key='affili
     if normalised:
         s = g.sum(axis=-2)
         tol = K * eps + 16 * K * eps_of(g.dtype)
-        if mask is not None:
+        if active is not None and mask is None:
+            # classes that can receive mass at all (weight > 0); a column without any is all-zero
+            act = np.broadcast_to(active, g.shape).any(axis=-2)
+            dev = float(np.abs(s[act] - 1).max()) if act.any() else 0.0
+            dead = float(np.abs(s[~act]).max()) if (~act).any() else 0.0
+            ok &= R.check(monitor, dev <= tol, f'{key}/sum', f'{where} |sum_k-1| max {dev:.3e} > {tol:.1e}', prop=prop, dev=dev)
+            ok &= R.check(monitor, dead <= K * eps, f'{key}/zero-prior-column', f'{where} column without prior mass sums to {dead:.3e}', prop=prop, dev=dead)
+        elif mask is not None:
             m = np.broadcast_to(mask, g.shape)
+            if active is not None:
+                m = m & np.broadcast_to(active, g.shape)
             anyact = m.any(axis=-2)
             dev_act = np.abs(s[anyact] - 1).max() if anyact.any() else 0.0
             # all-inactive columns: exactly zero (clipped: eps per class)
